@@ -78,16 +78,34 @@ class NInst(Inst):
     __slots__ = ("origin", "inlined")
 
 
-def default_inlinable(F, callee):
-    return (callee is not None and callee.body is not None and callee.local and callee.kind in ("item", "closure")
-            and callee.crate != "vroots")
+HOF_PREFIX = ("core::option::Option::", "core::result::Result::", "core::iter::", "<core::iter::", "core::ops::function::",
+              "<core::slice::iter::", "core::slice::", "<alloc::collections::btree::map::", "<alloc::vec::", "<core::option::", "<core::ops::range::",
+              "<core::array::", "core::array::", "<std::collections::hash::map::", "<&mut ", "<core::result::")
+WS_CLOSURE = "{closure@signal_hook"
+import re as _re
+# std adapters whose only job is to forward a value between Result/Option shapes (`?` desugaring, identity conversions)
+TRANSPARENT_RE = _re.compile(r"^<core::(result::Result|option::Option)<.*> as core::ops::try_trait::(Try|FromResidual<.*>)>::(branch|from_residual|from_output)$"
+                             r"|^<(.*) as core::convert::From<\2>>::from$|^<.* as core::convert::Into<.*>>::into$")
 
 
-def norm(F, inst, keep=lambda c: False, depth=MAX_DEPTH, inlinable=None, drops=False, _stack=()):
+def default_inlinable(F, callee, hof=False):
+    if callee is None or callee.body is None or callee.kind not in ("item", "closure") or callee.crate == "vroots":
+        return False
+    if callee.local:
+        return True
+    if hof and TRANSPARENT_RE.match(callee.name):
+        return True
+    if hof and WS_CLOSURE in callee.name and callee.name.startswith(HOF_PREFIX):
+        # a std combinator instantiated with a workspace closure: `opt.map(|x| ..)`, `iter.for_each(|a| ..)`; its body is ordinary MIR
+        return True
+    return False
+
+
+def norm(F, inst, keep=lambda c: False, depth=MAX_DEPTH, inlinable=None, drops=False, hof=False, _stack=()):
     """normal form of `inst` (see module doc). Cached per (inst, keep-id) by the caller if needed."""
     if inst.body is None:
         return inst
-    inlinable = inlinable or (lambda c: default_inlinable(F, c))
+    inlinable = inlinable or (lambda c: default_inlinable(F, c, hof))
     body = inst.body
     locals_ = list(body["locals"])
     names = list(body.get("names") or [])
@@ -108,7 +126,7 @@ def norm(F, inst, keep=lambda c: False, depth=MAX_DEPTH, inlinable=None, drops=F
             bi += 1; continue
         if callee.id in stack or depth <= 0 or not inlinable(callee) or keep(callee) or len(blocks) > MAX_BLOCKS:
             bi += 1; continue
-        cn = norm(F, callee, keep, depth - 1, inlinable, drops, stack)
+        cn = norm(F, callee, keep, depth - 1, inlinable, drops, hof, stack)
         cb = cn.body
         lo = len(locals_); bo = len(blocks)
         locals_.extend(cb["locals"])
@@ -195,10 +213,227 @@ def all_inlined(ninst):
     return out
 
 
-def cached(F, inst, keep=None, tag="", **kw):
+KNOWN_VARIANTS = {"None": 0, "Some": 1, "Ok": 0, "Err": 1, "Continue": 0, "Break": 1, "false": 0, "true": 1}
+
+
+def _const_discr(F, e):
+    """the discriminant / integer value an expression is statically known to have, or None"""
+    from .flow import deep_strip, fold
+    e = deep_strip(e)
+    if e[0] == "discr":
+        b = deep_strip(e[1])
+        if b[0] == "agg" and b[1][0] == "adt" and len(b[1]) > 4 and b[1][4] is not None:
+            return b[1][4]
+        if b[0] == "const" and b[4] is not None:
+            v = b[4]
+            if v in KNOWN_VARIANTS and (b[2] or "").startswith(("core::option::Option", "core::result::Result", "core::ops::control_flow::ControlFlow")):
+                return KNOWN_VARIANTS[v]
+            try:
+                a = F.adt(b[2])
+                for i, var in enumerate(a["variants"]):
+                    if var["name"] == v:
+                        return var.get("discr", i)
+            except Exception:
+                return None
+        return None
+    if e[0] == "const" and isinstance(e[1], int) and e[4] is None:
+        return e[1]
+    v = fold(e)
+    return v if isinstance(v, int) and e[0] in ("binop", "unop", "cast") else None
+
+
+def simplify(F, n, rounds=6):
+    """constant-branch folding on a normal form: a switch whose operand is statically one value (a mode argument bound to a constant at
+    the inlined call site) becomes a goto; blocks that become unreachable are emptied (indices stay stable). No code is run."""
+    from .flow import Flow
+    body = n.body
+    for _ in range(rounds):
+        fl = Flow(n)
+        changed = False
+        for b, bl in enumerate(body["blocks"]):
+            t = bl["t"]
+            if t["k"] != "switch" or bl.get("dead"):
+                continue
+            if fl._rd_in is None:
+                fl._compute()
+            if fl._rd_in[b] is None:
+                continue
+            ex = fl.term_operand(b, t["d"])
+            vals = {_const_discr(F, e) for e in ex}
+            if len(vals) != 1 or None in vals:
+                continue
+            v = vals.pop()
+            tgt = t["else"]
+            for val, tg in t["vals"]:
+                if val == v:
+                    tgt = tg
+            nb = dict(bl); nb["t"] = {"k": "goto", "ret": tgt, "sp": t.get("sp", ""), "exp": t.get("exp", False), "folded": v}
+            body["blocks"][b] = nb
+            changed = True
+        # empty unreachable blocks
+        seen = set(); st = [0]
+        while st:
+            x = st.pop()
+            if x in seen:
+                continue
+            seen.add(x); st.extend(n.succ(x))
+        for b, bl in enumerate(body["blocks"]):
+            if b not in seen and not bl.get("dead"):
+                body["blocks"][b] = {"s": [], "t": {"k": "unreachable", "sp": bl["t"].get("sp", ""), "exp": False}, "cleanup": bl.get("cleanup", False),
+                                     "dead": True, "from": bl.get("from"), "site": bl.get("site")}
+                changed = True
+        if not changed:
+            break
+    return n
+
+
+def _variant_of_def(F, n, site):
+    """variant index assigned by the def site (bb, idx) if it is `L = Variant(..)` (aggregate or enum constant), else None"""
+    bb, idx = site
+    bl = n.body["blocks"][bb]
+    if idx >= len(bl["s"]):
+        return None
+    s = bl["s"][idx]
+    if s["k"] != "assign" or s["l"]["p"]:
+        return None
+    r = s["r"]
+    if r["k"] == "aggregate" and r.get("ak") == "adt" and r.get("vi") is not None:
+        return r["vi"]
+    if r["k"] == "use" and r["o"]["k"] == "const":
+        c = r["o"]["c"]
+        if c.get("variant") in KNOWN_VARIANTS and (c.get("def") or "").startswith(("core::option::Option", "core::result::Result", "core::ops::control_flow::ControlFlow")):
+            return KNOWN_VARIANTS[c["variant"]]
+        if c.get("variant") is None and isinstance(c.get("val"), int) and c.get("ty") in ("bool",):
+            return c["val"]
+    return None
+
+
+def _variants_at(F, n, fl, local, at, depth=0):
+    """set of variant indices `local` can hold at position `at`, following plain copies; contains None when unknown"""
+    out = set()
+    defs = fl.reaching(local, at)
+    if not defs:
+        return {None}
+    for site in defs:
+        if site[0] == "entry":
+            out.add(None); continue
+        v = _variant_of_def(F, n, site)
+        if v is not None:
+            out.add(v); continue
+        bb, idx = site
+        bl = n.body["blocks"][bb]
+        if idx < len(bl["s"]) and depth < 6:
+            s = bl["s"][idx]
+            if s["k"] == "assign" and not s["l"]["p"] and s["r"]["k"] == "use" and s["r"]["o"]["k"] in ("copy", "move") and not s["r"]["o"]["p"]["p"]:
+                out |= _variants_at(F, n, fl, s["r"]["o"]["p"]["l"], (bb, idx), depth + 1)
+                continue
+        out.add(None)
+    return out
+
+
+def thread_jumps(F, n, rounds=12):
+    """jump threading: a switch on `discriminant(L)` (or on a bool local L) whose value is fixed by the predecessor the control came from
+    (`L = Ok(..)` on one edge, `L = Err(..)` on the other, joined only to be taken apart again — the shape `?` and inlined helpers
+    returning Result leave behind) is resolved per predecessor by duplicating the (statement-only) switch block. No code is run."""
+    from .flow import Flow
+    body = n.body
+    blocks = body["blocks"]
+    addr_taken = set()
+    for bl in blocks:
+        for s in bl["s"]:
+            if s["k"] == "assign" and s["r"]["k"] in ("ref", "rawptr") and not s["r"]["p"]["p"]:
+                addr_taken.add(s["r"]["p"]["l"])
+    for _ in range(rounds):
+        fl = Flow(n)
+        fl._compute()
+        preds = n.preds(False)
+        changed = False
+        for b in range(len(blocks)):
+            bl = blocks[b]
+            t = bl["t"]
+            if t["k"] != "switch" or bl.get("dead") or fl._rd_in[b] is None:
+                continue
+            d = t["d"]
+            if d["k"] not in ("copy", "move") or d["p"]["p"]:
+                continue
+            # the chain of statement-only blocks that leads into the switch: [head, .., b]; head is where paths join
+            chain = [b]
+            while len(preds[chain[0]]) == 1 and len(chain) < 8:
+                q = preds[chain[0]][0]
+                if q in chain or blocks[q]["t"]["k"] != "goto" or blocks[q].get("dead"):
+                    break
+                chain.insert(0, q)
+            head = chain[0]
+            if len(preds[head]) < 2:
+                continue
+            # walk the chain backwards: which local, defined before the chain, decides the switch?
+            target = d["p"]["l"]; ok = True; via_discr = False
+            for cb in reversed(chain):
+                for st in reversed(blocks[cb]["s"]):
+                    if st["k"] == "setdiscr" and st["l"]["l"] == target:
+                        ok = False
+                    if st["k"] != "assign" or st["l"]["l"] != target:
+                        continue
+                    if st["l"]["p"]:
+                        ok = False; continue
+                    r = st["r"]
+                    if r["k"] == "discr" and not r["p"]["p"]:
+                        target = r["p"]["l"]; via_discr = True
+                    elif r["k"] == "use" and r["o"]["k"] in ("copy", "move") and not r["o"]["p"]["p"]:
+                        target = r["o"]["p"]["l"]
+                    else:
+                        ok = False
+            if not ok or target in addr_taken or not via_discr:
+                continue      # only enum discriminants are threaded (plain bool flags keep their join: rules reason about them as values)
+            for p in list(preds[head]):
+                if blocks[p].get("dead") or fl._rd_in[p] is None or p in chain:
+                    continue
+                vs = _variants_at(F, n, fl, target, (p, len(blocks[p]["s"]) + 1))
+                if len(vs) != 1 or None in vs:
+                    continue
+                v = vs.pop()
+                tgt = t["else"]
+                for val, tg in t["vals"]:
+                    if val == v:
+                        tgt = tg
+                first = len(blocks)
+                for ci, cb in enumerate(chain):
+                    src = blocks[cb]
+                    last = ci == len(chain) - 1
+                    nt = {"k": "goto", "ret": tgt if last else first + ci + 1, "sp": src["t"].get("sp", ""), "exp": src["t"].get("exp", False)}
+                    if last:
+                        nt["threaded"] = v
+                    blocks.append({"s": list(src["s"]), "t": nt, "cleanup": src.get("cleanup", False), "from": src.get("from"), "site": src.get("site")})
+                pt = dict(blocks[p]["t"])
+                if pt.get("ret") == head:
+                    pt["ret"] = first
+                if pt["k"] == "switch":
+                    pt["vals"] = [[val, (first if tg == head else tg)] for val, tg in pt["vals"]]
+                    if pt["else"] == head:
+                        pt["else"] = first
+                np_ = dict(blocks[p]); np_["t"] = pt
+                blocks[p] = np_
+                changed = True
+        # (reaching definitions computed before this round are a superset of the true ones after redirecting edges: still sound)
+        if not changed:
+            break
+    return n
+
+
+def cached(F, inst, keep=None, tag="", fold_consts=True, thread=False, **kw):
     """normal form cached on the Facts object (keeps the synthetic instances alive: flow caches are keyed by object identity)"""
     c = F.__dict__.setdefault("_norm_cache", {})
     k = (inst.id, tag)
     if k not in c:
-        c[k] = norm(F, inst, keep or (lambda x: False), **kw)
+        n = norm(F, inst, keep or (lambda x: False), **kw)
+        if fold_consts and isinstance(n, NInst):
+            simplify(F, n)
+            if thread:
+                for _ in range(4):
+                    nb = len(n.body["blocks"])
+                    thread_jumps(F, n)
+                    simplify(F, n)
+                    if len(n.body["blocks"]) == nb:
+                        break
+        c[k] = n
     return c[k]
